@@ -349,15 +349,29 @@ Size(s, v) ==
     [] s.k = "iface" -> LET A == {j \in 1..Len(s.alts) : s.alts[j].c = v.c}
                         IN  IF A = {} THEN 1 ELSE 1 + Size(s.alts[MinOf(A)].t, v.v)
     [] OTHER -> 1
-\* the same for the empty value of the schema: what a decoder may build without reading anything
+\* Static(s): the size a decoder may build WITHOUT consuming input for it: fixed parts (struct fields, array
+\* slots, absent optionals) and the up to 255 elements of a slice of EMPTY elements (one-byte count only)
 RECURSIVE Static(_)
 RECURSIVE SumStatic(_, _)
 SumStatic(fs, i) == IF i > Len(fs) THEN 0 ELSE Static(fs[i]) + SumStatic(fs, i + 1)
+MaxOver(S) == IF S = {} THEN 0 ELSE CHOOSE x \in S : \A y \in S : y <= x
 Static(s) ==
   CASE s.k \in {"barr", "custom"} -> 1 + s.n
+    [] s.k = "slice" -> IF MinWidth(s.e) = 0 THEN 1 + 255 * Static(s.e) ELSE 1
     [] s.k = "arr" -> 1 + s.n * Static(s.e)
     [] s.k = "struct" -> 1 + SumStatic(s.f, 1)
     [] s.k \in {"opt", "eptr"} -> 1 + Static(s.t)
-    [] s.k = "iface" -> 1 + (LET S == {Static(s.alts[j].t) : j \in 1..Len(s.alts)} IN CHOOSE x \in S : \A y \in S : y <= x)
+    [] s.k = "iface" -> 1 + MaxOver({Static(s.alts[j].t) : j \in 1..Len(s.alts)})
     [] OTHER -> 1
+\* PerByte(s): the most a decoder may build per consumed byte: every dynamic element (string byte, slice
+\* element, map entry) costs at least one input byte and brings at most the static size of its schema
+RECURSIVE PerByte(_)
+PerByte(s) ==
+  CASE s.k \in {"str", "bytes"} -> 1
+    [] s.k \in {"slice", "arr"} -> MaxOver({Static(s.e), PerByte(s.e)})
+    [] s.k = "map" -> MaxOver({Static(s.key) + Static(s.val), PerByte(s.key), PerByte(s.val)})
+    [] s.k = "struct" -> MaxOver({PerByte(s.f[i]) : i \in 1..Len(s.f)})
+    [] s.k \in {"opt", "eptr"} -> PerByte(s.t)
+    [] s.k = "iface" -> MaxOver({PerByte(s.alts[j].t) : j \in 1..Len(s.alts)})
+    [] OTHER -> 0
 =============================================================================
